@@ -190,3 +190,19 @@ PROPS["C01"] = dict(
     assumptions=["no 64-bit name-hash collision between distinct folded names", "codec round trip on the explored units"],
     drivers=[drivers.c01_write_driver],
 )
+
+PROPS["C02"] = dict(
+    no_harness=True,
+    rule=("direction 1: 40 (quick) / 400 (thorough) archives built by ArchiveBuilder over the published subset (V1/V2, classic "
+          "tables, none/zlib/bzip2, plain / encrypted / fix-key, sector shifts 0..8, sector CRC, listfile) are opened by the "
+          "reference (Lean layout/probing/keys/cipher under the published conventions, CPython zlib/bz2 as codecs); every file "
+          "must decode to the input, never-added names must be not-found, header fields must agree with the library's view. "
+          "direction 2: 30 / 300 archives laid out by the reference writer from CPython-compressed units are read by "
+          "Archive::open/read_file under several spellings. non-trivial = a file that crosses the implementation boundary intact"),
+    trusted_base=COMMON_TB + [
+        "the reference is Model.Mpq with publishedConv as I wrote it from the published format; CPython's zlib and bz2 "
+        "(independent C libraries) are its codecs", "V3/V4, HET/BET, LZMA/PKWare/sparse are outside the property's subset"],
+    assumptions=["published file key = hash of the plain name (after the last path separator); published cipher leaves the "
+                 "1-3 tail bytes unencrypted (StormLib's documented behaviour)"],
+    drivers=[drivers.c02_driver],
+)
